@@ -209,11 +209,16 @@ func Go(body func()) { GoNamed("", false, body) }
 // GoDaemon spawns a managed thread whose being blocked at the end is not a deadlock.
 func GoDaemon(body func()) { GoNamed("", true, body) }
 
+// NoDaemonsOutsideRun: a harness whose sequential parts build millions of instances outside executions sets this so
+// that background janitors rewritten into daemon threads (overlay directive daemongo) are simply not started there
+// (what the directive dropgo does everywhere); inside an execution they run under the scheduler.
+var NoDaemonsOutsideRun bool
+
 // GoNamed spawns a named managed thread.
 func GoNamed(name string, daemon bool, body func()) {
 	s := Active()
 	if s == nil {
-		if Dying() {
+		if Dying() || daemon && NoDaemonsOutsideRun {
 			return
 		}
 		go body()
